@@ -367,6 +367,37 @@ def check_plain(case, rec):
     rec.label(case["fmt"])
 
 
+def build_doc(case):
+    """(document text, reader class) for a generated case of any of the five formats."""
+    fmt = case["fmt"]
+    if fmt == "dfxp":
+        ps = []
+        for i, c in enumerate(case["cues"]):
+            inner = c["br"].join(_line_enc(l) for l in c["lines"])
+            if c["pretty"]:
+                inner = "\n        " + inner + "\n      "
+            ps.append({"attrs": [("begin", f"00:00:{i:02d}.000"), ("end", f"00:00:{i:02d}.900")], "inner": inner})
+        return S.dfxp_doc([{"lang": "en", "ps": ps}], tt_lang="en"), DFXPReader
+    if fmt == "sami":
+        syncs = []
+        for i, c in enumerate(case["cues"]):
+            inner = c["br"].join(_line_enc(l) for l in c["lines"])
+            syncs.append((str(1000 * (i + 1)), [{"cls": "ENCC", "inner": inner}]))
+        return S.sami_doc(syncs, [("ENCC", "en-US", [("name", "English")])], upper=case["upper"],
+                          close_p=case["close_p"]), SAMIReader
+    if fmt == "webvtt":
+        cues = [{"id": None, "start": f"00:{i:02d}.000", "end": f"00:{i:02d}.900", "settings": None,
+                 "lines": [_line_enc(l).strip() for l in c["lines"]]} for i, c in enumerate(case["cues"])]
+        return S.webvtt_doc(cues), WebVTTReader
+    if fmt == "srt":
+        cues = [(f"00:00:{i:02d},000", f"00:00:{i:02d},900", [_line_enc(l) for l in c["lines"]])
+                for i, c in enumerate(case["cues"])]
+        return S.srt_doc(cues, case["eol"]), SRTReader
+    cues = [(25 * i + 1, 25 * i + 20, "|".join(_line_enc(l) for l in c["lines"]))
+            for i, c in enumerate(case["cues"])]
+    return S.microdvd_doc(cues, None, case["eol"]), MicroDVDReader
+
+
 def subchecks(tier):
     return [
         Sub("dfxp", check_dfxp, strategy=dfxp_strategy, examples=(6000, 200000), min_per_shard=300),
